@@ -12,6 +12,8 @@
 mod vlog;
 #[path = "/verif/harness/seq/app/gen.rs"]
 mod gen;
+#[path = "/verif/harness/seq/app/ibc.rs"]
+mod ibc;
 #[path = "/verif/harness/seq/app/sim.rs"]
 mod sim;
 
